@@ -7,7 +7,7 @@ W=$(mktemp -d /tmp/verify-seed-XXXXXX)
 git -C /repo worktree add -q "$W/wt" HEAD || exit 2
 trap 'git -C /repo worktree remove --force "$W/wt"; rm -rf "$W"' EXIT INT TERM
 cd "$W/wt" || exit 2
-sed "s#/tmp/wt[234]\?/C[0-9][0-9]#$W/wt#g; s#/tmp/seedout[234]\?/C[0-9][0-9]\(/[AB]\)\?#$D#g" "$D/demo.py" > "$W/demo.py"
+sed "s#/tmp/wt[2345]\?/C[0-9][0-9]#$W/wt#g; s#/tmp/seedout[2345]\?/C[0-9][0-9]\(/[AB]\)\?#$D#g" "$D/demo.py" > "$W/demo.py"
 /venv/bin/python "$W/demo.py" >/dev/null 2>&1; echo "demo without patch: exit=$?"
 git apply "$D/patch.diff" || { echo "patch does not apply"; exit 2; }
 /venv/bin/python -m pytest -q -p no:cacheprovider 2>&1 | tail -1
